@@ -43,6 +43,13 @@ Definition push_typed (t : ltype) (v : value) : value :=
       end
   end.
 
+(** the value has the type the vector was created with (NULL fits every vector) *)
+Definition type_okb (t : ltype) (v : value) : bool :=
+  match t, v with
+  | _, VNull | TAny, _ | TInt, VInt _ | TFloat, VFloat _ | TBool, VBool _ | TStr, VStr _ => true
+  | _, _ => false
+  end.
+
 (** * exact quotient of two integers as a binary64 bit pattern (round to nearest, ties to even);
       [n > 0]; the result is in the normal range for the operands that occur (|s|, n <= 2^62) *)
 Definition f_of_ratio (s n : Z) : Z :=
